@@ -41,7 +41,15 @@ def methodTable : List (String × String) :=
    ("as_str", "inherent method of String"),
    ("fold", "the receiver's type is a type parameter bounded by `derive_more::core::iter::Iterator` in the same template")]
 
-def fixedNames : List String := keywords ++ primitives ++ special ++ methodTable.map (·.1)
+/-- Names of the associated functions that templates call through a *type* path (`Type::f(..)`,
+`Type::<..>::f(..)`) and of the types they are called on. Such a call is an inherent function of that
+type (or, for `Error::provide`, a method named through its trait); any other `Type::f` would be looked
+up through the traits in the caller's scope. -/
+def assocNames : List String :=
+  ["new", "DebugStruct", "DebugTuple", "Formatter", "Error", "field", "finish", "finish_non_exhaustive",
+   "debug_struct", "provide"]
+
+def fixedNames : List String := keywords ++ primitives ++ special ++ methodTable.map (·.1) ++ assocNames
 
 def nKw : Nat := 39
 def nPrim : Nat := 17
@@ -54,7 +62,29 @@ def nMethods : Nat := 7
 example : keywords.length = nKw := rfl
 example : primitives.length = nPrim := rfl
 example : methodTable.length = nMethods := rfl
-example : fixedNames.length = methodBase + nMethods := rfl
+def assocBase : Nat := 66
+def idNew : Nat := 66
+def idDebugStruct : Nat := 67
+def idDebugTuple : Nat := 68
+def idFormatter : Nat := 69
+def idError : Nat := 70
+def idField : Nat := 71
+def idFinish : Nat := 72
+def idFinishNonExhaustive : Nat := 73
+def idDebugStructFn : Nat := 74
+def idProvide : Nat := 75
+def idWriteStr : Nat := 62
+example : fixedNames.length = assocBase + assocNames.length := rfl
+example : fixedNames[idNew]? = some "new" := rfl
+example : fixedNames[idProvide]? = some "provide" := rfl
+example : fixedNames[idWriteStr]? = some "write_str" := rfl
+
+/-- `Type::f` pairs that do not depend on the traits in scope. -/
+def assocOk (y n : Nat) : Bool :=
+  n == idNew
+    || ((y == idDebugStruct || y == idDebugTuple) && (n == idField || n == idFinish || n == idFinishNonExhaustive))
+    || (y == idFormatter && (n == idDebugStructFn || n == idWriteStr))
+    || (y == idError && n == idProvide)
 
 /-- Names outside `fixedNames` are interned as `dynBase + 4 * k + class` (checked by `gen-selfcheck`):
 class 0: the first letter is lower-case (or there is none): variables, functions, modules;
@@ -62,7 +92,8 @@ class 1: the first letter is upper-case: types, traits, variants, constants;
 class 2: the name starts with `__`: derive_more's reserved prefix for the names an expansion
 introduces itself (`__AsT`, `__derive_more_f`, `__l_0`, ...). -/
 def dynBase : Nat := 100
-def isUpper (n : Nat) : Bool := dynBase ≤ n && n % 4 == 1
+def isUpper (n : Nat) : Bool :=
+  (dynBase ≤ n && n % 4 == 1) || n == 67 || n == 68 || n == 69 || n == 70   -- DebugStruct, DebugTuple, Formatter, Error
 def isPrivate (n : Nat) : Bool := dynBase ≤ n && n % 4 == 2
 
 def isKeyword (n : Nat) : Bool := n < nKw
@@ -133,6 +164,7 @@ inductive Head where
   | mac (n : Nat)       -- `n!(..)`: looked up in the macro scope
   | method (n : Nat)    -- `.n(..)`
   | methodVar           -- `.#name(..)`: a method whose name is interpolated
+  | assoc (y n : Nat)   -- `Y::n(..)` / `Y::<..>::n(..)`: an associated function called through a type path
   | binder (n : Nat)    -- the template itself introduces this name
   deriving Repr, DecidableEq, Inhabited
 
@@ -145,9 +177,31 @@ def isAssocDefKw (n : Nat) : Bool := n == kwFn || n == kwType || n == kwConst
 def isDefKw (n : Nat) : Bool :=
   n == kwStruct || n == kwEnum || n == kwTrait || n == kwMod || n == kwLet || n == kwStatic
 
-/-- Classification of identifier `n` given the three tokens before it, the two after it and the
-delimiter of the enclosing group. -/
-def classify (_encl : Delim) (p3 p2 p1 : K) (n : Nat) (n1 n2 : K) : List Head :=
+/-- Scanning backwards from a `>` (the list is the reversed prefix starting at that `>`): the name of the
+type in front of the matching `::<`, if the brackets are a turbofish. `<T as X>::f` and comparisons give `none`. -/
+def turbofishType : Nat → Nat → List K → Option Nat
+  | 0, _, _ => none
+  | _, _, [] => none
+  | fuel + 1, depth, k :: rest =>
+    match k with
+    | .punct c _ =>
+      if c = cGt then
+        (match rest with
+         | .punct d true :: _ => if d = 45 || d = 61 then turbofishType fuel depth rest      -- `->`, `=>`
+                                 else turbofishType fuel (depth + 1) rest
+         | _ => turbofishType fuel (depth + 1) rest)
+      else if c = cLt then
+        (if depth = 1 then
+          (match rest with
+           | .punct c1 _ :: .punct c2 true :: .ident y :: _ => if c1 = cColon && c2 = cColon then some y else none
+           | _ => none)
+         else turbofishType fuel (depth - 1) rest)
+      else turbofishType fuel depth rest
+    | _ => turbofishType fuel depth rest
+
+/-- Classification of identifier `n` given the three tokens before it, the two after it, the
+delimiter of the enclosing group and the reversed prefix of the current level (`rev`, nearest token first). -/
+def classify (_encl : Delim) (rev : List K) (p3 p2 p1 : K) (n : Nat) (n1 n2 : K) : List Head :=
   if p1 = .punct cDot false || p1 = .punct cDot true then
     (match n1 with
      | .group .paren => [.method n]
@@ -156,9 +210,15 @@ def classify (_encl : Delim) (p3 p2 p1 : K) (n : Nat) (n1 n2 : K) : List Head :=
   else if p1 = .punct cQuote true then []                          -- lifetime
   else if (p1 = .punct cColon false || p1 = .punct cColon true) && p2 = .punct cColon true then
     (match p3 with
-     | .ident _ => []                                              -- `a::n`
+     | .ident y =>                                                 -- `a::n`; `Type::f(..)` is an associated call
+       if isUpper y && !isUpper n && !isPrivate n && n1 = .group .paren then [.assoc y n] else []
      | .var => []                                                  -- `#a::n`
-     | .punct c _ => if c = cGt then [] else [.ext n]              -- `<T as X>::n`, else a leading `::`
+     | .punct c _ =>
+       if c = cGt then                                             -- `<T as X>::n` or `Type::<..>::n`
+         (match turbofishType (rev.length + 1) 0 (rev.drop 2) with
+          | some y => if n1 = .group .paren then [.assoc y n] else []
+          | none => [])
+       else [.ext n]                                               -- a leading `::`
      | _ => [.ext n])
   else if isKeyword n then []
   else if (match p1 with | .ident k => isAssocDefKw k | _ => false) then []
@@ -187,26 +247,26 @@ def isAttrPos (p2 p1 : K) : Bool :=
 mutual
   /-- `headsFrom encl attr ts i`-style traversal written with explicit neighbours: `p3 p2 p1` are the
   kinds of the three preceding tokens on this level. `attr`: inside an attribute. -/
-  def headsL (encl : Delim) (attr : Bool) (p3 p2 p1 : K) : List TT → List Head
+  def headsL (encl : Delim) (attr : Bool) (rev : List K) (p3 p2 p1 : K) : List TT → List Head
     | [] => []
     | t :: rest =>
       let n1 := (rest.head?.map TT.kind).getD .start
       let n2 := ((rest.drop 1).head?.map TT.kind).getD .start
-      headsT encl attr p3 p2 p1 n1 n2 t ++ headsL encl attr p2 p1 t.kind rest
-  def headsT (encl : Delim) (attr : Bool) (p3 p2 p1 n1 n2 : K) : TT → List Head
+      headsT encl attr rev p3 p2 p1 n1 n2 t ++ headsL encl attr (t.kind :: rev) p2 p1 t.kind rest
+  def headsT (encl : Delim) (attr : Bool) (rev : List K) (p3 p2 p1 n1 n2 : K) : TT → List Head
     | .i n =>
-      let hs := classify encl p3 p2 p1 n n1 n2
+      let hs := classify encl rev p3 p2 p1 n n1 n2
       if attr then hs.filter (fun h => match h with | .mac _ => true | _ => false) else hs
     | .g d ts =>
       let a := attr || (d = .bracket && isAttrPos p2 p1)
-      headsL d a .start .start .start ts
-    | .r ts => headsL encl attr .start .start .start ts
+      headsL d a [] .start .start .start ts
+    | .r ts => headsL encl attr [] .start .start .start ts
     | .v =>
       if !attr && (p1 = .punct cDot false || p1 = .punct cDot true) && n1 = .group .paren then [.methodVar] else []
     | _ => []
 end
 
-def heads (ts : List TT) : List Head := headsL .none false .start .start .start ts
+def heads (ts : List TT) : List Head := headsL .none false [] .start .start .start ts
 
 structure Template where
   file : Nat
@@ -224,6 +284,7 @@ def Head.escapes (B : List Nat) : Head → Bool
   | .mac _ => true
   | .method n => !isKnownMethod n
   | .methodVar => true
+  | .assoc y n => !assocOk y n
   | .binder _ => false
 
 /-- Files whose templates are bodies of the operator method being implemented (`fn add(self, rhs)
@@ -241,6 +302,7 @@ def Head.escapesIn (B : List Nat) (file : Nat) : Head → Bool
   | .ext n => (Head.ext n).escapes B
   | .mac n => (Head.mac n).escapes B
   | .method n => (Head.method n).escapes B
+  | .assoc y n => (Head.assoc y n).escapes B
   | .binder n => (Head.binder n).escapes B
 
 def escapingT (B : List Nat) (t : Template) : List Head :=
@@ -276,6 +338,7 @@ def resolveHead {Item : Type} (B : List Nat) (fx : Fixed Item) (σ : Scope Item)
   | .mac n => σ.mac n
   | .method n => if isKnownMethod n then fx.methodItem n else σ.meth (some n)   -- unknown: needs a trait from the scope
   | .methodVar => if file < nCurrentImplFiles then fx.methodItem 0 else σ.meth none
+  | .assoc y n => if assocOk y n then fx.methodItem n else σ.meth (some n)   -- not inherent: found through a trait in scope
   | .binder n => fx.localItem n
 
 def resolution {Item : Type} (B : List Nat) (fx : Fixed Item) (σ : Scope Item) (t : Template) : List (Option Item) :=
